@@ -559,6 +559,16 @@ fn with_model<T>(pool: &[((i32, i32), V)], f: impl FnOnce(&mut Model) -> T) -> O
     })
 }
 
+/// syntactically array-valued (a range, or an operator / lifted function over one)
+fn arrayish(e: &E) -> bool {
+    match e {
+        E::Range(..) => true,
+        E::Bin(_, l, r) => arrayish(l) || arrayish(r),
+        E::Call(f, args) if matches!(*f, "ABS" | "IF" | "IFERROR") => args.iter().any(arrayish),
+        _ => false,
+    }
+}
+
 fn is_err_ans(a: &str) -> bool {
     a.starts_with("V e")
 }
@@ -572,10 +582,21 @@ fn oracles(m: &mut Model, e: &E, ans: &str, fails: &mut Vec<(String, String)>) {
             let la = eval_formula(m, &render(l));
             let ra = eval_formula(m, &render(r));
             if la.starts_with("V ") && ra.starts_with("V ") {
+                let arrayish_operand = arrayish(l) || arrayish(r);
                 if is_err_ans(&la) && ans != la {
-                    fails.push((format!("c06:strict:{op}:left-error-not-propagated"), format!("{} = {ans}, left operand alone = {la}", render(e))));
+                    let sig = if CMP.contains(op) && arrayish_operand {
+                        "c06:compare:error-element-of-array-operand-not-propagated".to_string()
+                    } else {
+                        format!("c06:strict:{op}:left-error-not-propagated")
+                    };
+                    fails.push((sig, format!("{} = {ans}, left operand alone = {la}", render(e))));
                 } else if !is_err_ans(&la) && is_err_ans(&ra) && !is_err_ans(ans) {
-                    fails.push((format!("c06:strict:{op}:right-error-swallowed"), format!("{} = {ans}, right operand alone = {ra}", render(e))));
+                    let sig = if CMP.contains(op) && arrayish_operand {
+                        "c06:compare:error-element-of-array-operand-not-propagated".to_string()
+                    } else {
+                        format!("c06:strict:{op}:right-error-swallowed")
+                    };
+                    fails.push((sig, format!("{} = {ans}, right operand alone = {ra}", render(e))));
                 }
                 // trichotomy of the comparison operators on the same operands
                 if CMP.contains(op) && !is_err_ans(&la) && !is_err_ans(&ra) {
